@@ -57,7 +57,7 @@ func init() {
 				return 100_000
 			}, Run: c15Type,
 				Rule: "the exported paint type used directly: render.Gradient.Init against the same gradient assembled from render.AppendRanges called piecewise (slices with and without spare capacity), and a Gradient value re-initialised after another stop list; the ranges must be those of the stop list and At must agree at PRNG pixels",
-				Min:  map[string]int64{"gradients": 50000, "piecewise_without_spare_capacity": 10000, "points_compared": 500000}},
+				Min:  map[string]int64{"gradients": 50000, "piecewise_without_spare_capacity": 10000, "points_compared": 500000, "points_far_from_the_origin": 1000, "points_exactly_on_a_stop": 100000}},
 		},
 	})
 }
@@ -135,6 +135,52 @@ func c15Type(c *run.Ctx, idx uint64) {
 		if g.First != stops[0].RGBA64 || g.Last != stops[n-1].RGBA64 {
 			c.Violate("gradient-type/first-last", desc(map[string]interface{}{"built_by": name}))
 			return
+		}
+	}
+	// "evaluated at any pixel": far from the origin a padded linear gradient shows
+	// its first or its last colour, exactly
+	if spread == render.SpreadPad && shape == render.ShapeLinear {
+		for _, x := range []int{-(1 << 31), -2_000_000_000, -1_000_000_001, 1_000_000_000, 2_000_000_000, 1<<31 + 5} {
+			o := m[0]*(float64(x)+0.5) + m[1]*0.5 + m[2]
+			if math.Abs(o) < 10 {
+				continue
+			}
+			want := stops[0].RGBA64
+			if o > 0 {
+				want = stops[n-1].RGBA64
+			}
+			c.Count("points_far_from_the_origin", 1)
+			if got := g1.At(x, 0); got != color.Color(want) {
+				c.Violate("gradient-type/far-point", desc(map[string]interface{}{"pixel": []int{x, 0}, "offset": o, "got": fmt.Sprint(got), "want": fmt.Sprint(want)}))
+				return
+			}
+		}
+	}
+	// "at a stop's offset the colour is that stop's colour": a dyadic map puts
+	// pixel x exactly on offset x/64, and the stops sit on 64ths (widths such as
+	// 49/64, whose product with their own reciprocal is not 1)
+	{
+		var ks []int
+		for k := 0; k <= 64; k++ {
+			if r.Chance(1, 12) {
+				ks = append(ks, k)
+			}
+		}
+		if len(ks) >= 2 {
+			es := make([]render.Stop, len(ks))
+			for i, k := range ks {
+				c8 := gen.Premul(r)
+				es[i] = render.Stop{Offset: float64(k) / 64, RGBA64: color.RGBA64{uint16(c8.R) * 257, uint16(c8.G) * 257, uint16(c8.B) * 257, uint16(c8.A) * 257}}
+			}
+			var ge render.Gradient
+			ge.Init(render.ShapeLinear, render.Spread(r.Intn(4)), render.Aff3{1.0 / 64, 0, -1.0 / 128, 0, 0, 0}, es)
+			for i, k := range ks {
+				c.Count("points_exactly_on_a_stop", 1)
+				if got := ge.At(k, r.Range(-5, 5)); got != color.Color(es[i].RGBA64) {
+					c.Violate("gradient-type/colour-at-a-stop-offset", desc(map[string]interface{}{"exact_stops": fmt.Sprint(es), "pixel_x": k, "got": fmt.Sprint(got), "want": fmt.Sprint(es[i].RGBA64)}))
+					return
+				}
+			}
 		}
 	}
 	for i := 0; i < 12; i++ {
